@@ -664,7 +664,17 @@ impl<F: Field + PrimeCharacteristicRing + Copy, const D: usize> AluAir<F, D> {
                             lane_prep.out_idx = src_last_prep.out_idx;
                             lane_prep.mult_out = src_last_prep.mult_out;
 
-                            lane_prep.mult_b *= F::from_usize(k);
+                            // The packed row has a single `b` lookup standing for all `k` steps:
+                            // it carries the sum of their multiplicities (`-1` per reading step;
+                            // the first step may instead be the creator of `b`).
+                            lane_prep.mult_b = (0..k)
+                                .map(|t| {
+                                    let src_t: &AluPrepLaneCols<F> = self.preprocessed
+                                        [(*first_idx + t) * plw..(*first_idx + t + 1) * plw]
+                                        .borrow();
+                                    src_t.mult_b
+                                })
+                                .sum();
                             lane_prep.mult_a
                         };
 
